@@ -382,6 +382,39 @@ func (m *mutationAnalysis) copyAliases(fn *ssa.Function, depth int) (bool, strin
 				}
 			}
 		case *ssa.Call:
+			// standard-library clones are shallow by contract: cloning a container of reference-typed elements shares the elements
+			if fo := calleeObj(x); fo != nil && fo.Pkg() != nil && (fo.Pkg().Path() == "maps" || fo.Pkg().Path() == "slices") && fo.Name() == "Clone" && len(x.Call.Args) == 1 {
+				fromRecv := false
+				for _, r := range chainRoots(x.Call.Args[0]) {
+					if r == ssa.Value(recv) {
+						fromRecv = true
+					}
+				}
+				var elem types.Type
+				switch t := x.Type().Underlying().(type) {
+				case *types.Map:
+					elem = t.Elem()
+				case *types.Slice:
+					elem = t.Elem()
+				}
+				if fromRecv && elem != nil && isRefType(elem) {
+					bad = fmt.Sprintf("%s.Clone is shallow: the %s elements stay shared with the receiver", fo.Pkg().Path(), elem)
+					return
+				}
+			}
+			if b, isB := x.Call.Value.(*ssa.Builtin); isB && b.Name() == "append" && len(x.Call.Args) == 2 {
+				if sl, isS := x.Type().Underlying().(*types.Slice); isS && isRefType(sl.Elem()) {
+					for _, r := range chainRoots(x.Call.Args[1]) {
+						if r == ssa.Value(recv) {
+							if _, isMap := sl.Elem().Underlying().(*types.Map); isMap {
+								bad = "append copies the element references only"
+								return
+							}
+						}
+					}
+				}
+				visit(x.Call.Args[0])
+			}
 			if depth > 0 {
 				for _, callee := range m.calleesInPkg(x) {
 					if ro := recvOperand(x); ro != nil {
